@@ -929,6 +929,97 @@ def _service_branch(srv):
     return b, viol, reach, bad
 
 
+def _closing_task_leaves_table_alone(core):
+    """'a subscription stays active as long as ... the handler still holds a sink for it': the per-subscription task that waits for the handler's closing value is not
+    a second owner of the subscription - it neither holds nor touches the subscriber table (only unsubscribe and the last sink's drop remove an entry)"""
+    from . import C04
+    b, ex, paths, joined, close_kind = C04._closing_task_paths(core)
+    bad = [(p.kind, p.detail) for p in paths if p.kind in ("unsupported", "limit", "unwound")]
+    viol, reach = [], []
+    table_rx = r"HashMap::<.*>::(remove|insert|clear|retain|drain)|Mutex<.*>::lock|lock_api::Mutex|Subscribers|FxHashMap"
+    caps = "\n".join(f"{k} {v}" for k, v in b.debug.items())
+    holds_table = re.search(r"subscribers|Subscribers|Mutex<", caps) is not None
+    for p in paths:
+        if p.kind not in ("return", "panic"):
+            continue
+        reach.append(p.cond())
+        touched = [e.callee for e in p.events if e.kind in ("call", "inline") and re.search(table_rx, e.callee)]
+        if touched or holds_table:
+            viol.append(p.cond())
+    reach_l = R.live_reach(viol, reach, bad)
+    if bad or not reach_l[0]:
+        return R.Result(engine="mirsym", name="order:closing-task:subscriber-table-untouched", kind="order", status="unsupported" if bad else "vacuous", detail=str(bad[:1])[:300], bodies=[b.name])
+    return R.decide("order:closing-task:subscriber-table-untouched", "order", z3.Or(*viol) if viol else z3.BoolVal(False), [z3.Or(*reach_l[0])], bodies=[b.name],
+                    desc="the task that waits for a subscription handler's closing value neither captures nor touches the subscriber table: a handler that returned while a sink it handed on "
+                         "is still alive leaves the subscription active",
+                    bounds="every path and resume point of the task; every outcome of the handler / acceptance join", keydetail="closing-task-table",
+                    replay=dict(scenario="c06_sink_handed_over", vars={}, fixed={}, region=z3.BoolVal(True)))
+
+
+def _connection_ids(srv):
+    """'another connection's id answers false' rests on every connection having its own id (the table key is (connection id, subscription id)):
+    Server::start hands consecutive accepted connections consecutive ids; TowerServiceBuilder::build takes each service's id from the builder's shared counter
+    with fetch_add(1) - a clone of the builder therefore never builds two services with the same id"""
+    from . import C10
+    res = []
+    b, ex, paths, closed = C10._accept_paths(srv)
+    bad = [(p.kind, p.detail) for p in paths if p.kind in ("unsupported", "limit")]
+    fi = R.field_index("ProcessConnection", "conn_id")
+    viol, reach = [], []
+    for p in paths:
+        seq = [e for e in p.events if e.kind == "call" and re.search(r"^process_connection::<", e.callee)]
+        ids = []
+        for e in seq:
+            prm = MM.value_of(ex, e.args[0])
+            ids.append(ex.read_node(prm.kids[fi]) if isinstance(prm, Node) and fi in prm.kids else None)
+        if len(ids) >= 2:
+            reach.append(p.cond())
+            for a_, b_ in zip(ids, ids[1:]):
+                if a_ is None or b_ is None or not isinstance(a_, z3.BitVecRef) or not isinstance(b_, z3.BitVecRef):
+                    viol.append(p.cond())
+                else:
+                    viol.append(z3.And(p.cond(), b_ != a_ + 1))
+    reach_l = R.live_reach(viol, reach, bad)
+    if bad or not reach_l[0]:
+        res.append(R.Result(engine="mirsym", name="order:Server::start_inner:connection-ids", kind="order", status="unsupported" if bad else "vacuous", detail=str(bad[:1])[:300], bodies=[b.name]))
+    else:
+        res.append(R.decide("order:Server::start_inner:connection-ids", "order", z3.Or(*viol) if viol else z3.BoolVal(False), [z3.Or(*reach_l[0])], bodies=[b.name],
+                            desc="consecutive accepted connections are given consecutive (hence different) connection ids", bounds="two and three accepts in a row from every resume point (wrap-around after 2^32 connections is outside)",
+                            keydetail="connection-ids", replay=dict(scenario="c06_history", vars={}, fixed={"cap": 2, "ops": [["sub", 0], ["unsub", 1, 0], ["unsub", 0, 0]]}, region=z3.BoolVal(True))))
+    b = R.find_body(srv, r"^fn server::<impl at server/src/server\.rs:[\d: ]+>::build\(_1: TowerServiceBuilder<RpcMiddleware, HttpMiddleware>, _2: impl Into<Methods>, _3: StopHandle\)")
+    ctx = P.make_ctx(srv, extra_models=list(SQ.TRY_MODELS))
+    ctx.inline = []
+    ex = Executor(ctx)
+    fi_cnt = R.field_index("TowerServiceBuilder", "conn_id")
+    fi_inner, fi_id = R.field_index("TowerServiceNoHttp", "inner"), R.field_index("ServiceData", "conn_id")
+    fi_rm = R.field_index("TowerService", "rpc_middleware")
+    viol, reach, bad = [], [], []
+    for p in ex.run(b):
+        if p.kind != "return":
+            bad.append((p.kind, p.detail))
+            continue
+        reach.append(p.cond())
+        adds = [e for e in p.events if e.kind == "call" and re.search(r"^Atomic::<u32>::fetch_add$", e.callee)]
+        good = len(adds) == 1 and f"ptr:arg1.{fi_cnt}" in re.sub(r"\s+", " ", str(to_term(adds[0].args[0]))) and str(z3.simplify(adds[0].args[1])) == "1" if adds and isinstance(adds[0].args[1], z3.ExprRef) else False
+        if good:
+            try:
+                sd = ex.read_node(ex.read_node(ex.read_node(p.ret.kids[fi_rm]).kids[fi_inner]).kids[fi_id])
+                good = str(to_term(sd)).startswith("call:Atomic::<u32>::fetch_add")
+            except (KeyError, AttributeError):
+                good = False
+        if not good:
+            viol.append(p.cond())
+    reach_l = R.live_reach(viol, reach, bad)
+    if bad or not reach_l[0]:
+        res.append(R.Result(engine="mirsym", name="prov:TowerServiceBuilder::build:connection-id", kind="provenance", status="unsupported" if bad else "vacuous", detail=str(bad[:1])[:300], bodies=[b.name]))
+    else:
+        res.append(R.decide("prov:TowerServiceBuilder::build:connection-id", "provenance", z3.Or(*viol) if viol else z3.BoolVal(False), [z3.Or(*reach_l[0])], bodies=[b.name],
+                            desc="TowerServiceBuilder::build gives the service the value fetch_add(1) returned on the builder's shared connection counter: every build - also from clones of one "
+                                 "builder - consumes an id, so no two connections share one", bounds="every path of build()", keydetail="service-connection-id",
+                            replay=dict(scenario="c06_history", vars={}, fixed={"cap": 2, "entry": "service_builder", "ops": [["sub", 0], ["unsub", 1, 0], ["unsub", 0, 0]]}, region=z3.BoolVal(True))))
+    return res
+
+
 def _refusal_code(types):
     """reject_too_many_subscriptions builds the error object with TOO_MANY_SUBSCRIPTIONS_CODE (-32006)"""
     b = R.find_body(types, r"^fn (\w+::)*reject_too_many_subscriptions\(_1: u32\)")
@@ -1050,6 +1141,8 @@ def obligations(tier, seed):
     hist = [{"cap": 2, "ops": [["sub", 0], ["sub", 0], ["sub", 0], ["query", 0], ["unsub", 1, 0], ["unsub", 0, 0], ["unsub", 0, 0], ["query", 0], ["finish", 0], ["sub", 0], ["sub_reject", 0], ["unsub_unknown", 0]]},
             {"cap": 2, "ops": [["sub", 0], ["clone", 0], ["dropone", 0], ["query", 0], ["unsub", 0, 0], ["query", 0], ["dropone", 0], ["sub", 0], ["sub", 0]]},
             {"cap": 1, "entry": "low_level", "ops": [["sub", 0], ["sub", 1], ["sub", 0], ["finish", 0], ["sub", 0]]}]
+    out += _connection_ids(R.bodies("server"))
+    out.append(_closing_task_leaves_table_alone(core))
     # "however the server is assembled": the configured value survives every builder step
     from .cfgframe import journey_obligations as _journey
     _extra = _journey(R.bodies("server"), "max_subscriptions_per_connection", "max_subscriptions_per_connection", scenario="cfg_journey", fixed={"field": "max_subscriptions_per_connection"})
